@@ -35,6 +35,19 @@ static inline long chk2(long id) { return (id ^ 0x5555) + 11; }
 static const char* const kStr = "libnstd-verif-arg";
 static void argBad(long id) { if (id >= 0 && id < MAXJOBS) __atomic_store_n(&g_argbad[id], 1, RLX); }
 
+// result type that owns a resource and knows whether it is alive: the worker's `result = call()` into an already destroyed result object
+// (Future destroyed / result member destroyed before the join) is caught at the assignment
+struct TRes {
+  long v; long magic; int* blk;
+  TRes() : v(-1), magic(0x11FE), blk(new int(1)) {}
+  TRes(long x) : v(x), magic(0x11FE), blk(new int(2)) {}
+  TRes(const TRes& o) : v(o.v), magic(0x11FE), blk(new int(3)) { if (o.magic != 0x11FE) fail("Future.result/copied-from-destroyed-result", "result object copied after its destruction"); }
+  ~TRes() { if (magic != 0x11FE) fail("Future.result/destroyed-twice", "result object destroyed twice"); magic = 0xDEAD; delete blk; blk = 0; }
+  TRes& operator=(const TRes& o) { if (magic != 0x11FE) fail("Future.result/stored-into-destroyed-result", "the call's return value was stored into a result object that had already been destroyed (the Future was torn down before the call completed)"); v = o.v; return *this; }
+};
+static TRes fr2(long id, int kind) { bodyCommon(id, kind); return TRes(resultOf(id)); }
+static TRes fr3(long id, int kind, long a) { if (a != chk1(id)) argBad(id); bodyCommon(id, kind); return TRes(resultOf(id)); }
+
 // free functions, 0..5 arguments, int and void
 struct ZSlot { long id; int kind; };
 static ZSlot g_zslot[8];
@@ -55,6 +68,7 @@ static void fv4(long id, int kind, long a, long b) { if (a != chk1(id) || b != c
 static void fv5(long id, int kind, long a, long b, const char* s) { if (a != chk1(id) || b != chk2(id) || s != kStr) argBad(id); bodyCommon(id, kind); }
 struct Obj {
   long id; int kind;
+  TRes mr1(long a) { if (a != chk1(id)) argBad(id); bodyCommon(id, kind); return TRes(resultOf(id)); }
   int mi0() { bodyCommon(id, kind); return resultOf(id); }
   int mi1(long a) { if (a != chk1(id)) argBad(id); bodyCommon(id, kind); return resultOf(id); }
   int mi2(long a, long b) { if (a != chk1(id) || b != chk2(id)) argBad(id); bodyCommon(id, kind); return resultOf(id); }
@@ -115,7 +129,7 @@ extern "C" void verif_pt_violation(const char* what, const void* addr) {
 
 // ------------------------------------------------------------------ clients
 struct FSlot {
-  Future<int>* fi; Future<void>* fv; bool isInt; long id; bool outstanding; bool abortCalled; Obj obj; int zslot;
+  Future<int>* fi; Future<void>* fv; Future<TRes>* fr; bool isInt, isRes; long id; bool outstanding; bool abortCalled; Obj obj; int zslot;
 };
 struct Client {
   int idx; u64 seed; int nfut; int rounds; int gatedPermille; int abortPermille; pthread_t th;
@@ -129,7 +143,7 @@ static void verifyCompleted(FSlot& s, const char* how, bool objectAlive) {
   if (e != 1 || !d) { snprintf(key, sizeof key, "Future.%s/%s", how, e == 0 ? "returned-before-execution" : e > 1 ? "executed-more-than-once" : "returned-before-completion"); fail(key, "job %ld: after %s returned the call had been executed %d time(s), completed=%d", id, how, e, d); }
   if (__atomic_load_n(&g_argbad[id], RLX)) { snprintf(key, sizeof key, "Future.start/arguments"); fail(key, "job %ld received arguments different from the ones given to start()", id); }
   if (objectAlive) {
-    bool ab = s.isInt ? s.fi->isAborted() : s.fv->isAborted(), fin = s.isInt ? s.fi->isFinished() : s.fv->isFinished();
+    bool ab = s.isRes ? s.fr->isAborted() : s.isInt ? s.fi->isAborted() : s.fv->isAborted(), fin = s.isRes ? s.fr->isFinished() : s.isInt ? s.fi->isFinished() : s.fv->isFinished();
     if (ab == fin) { snprintf(key, sizeof key, "Future.%s/state", how); fail(key, "job %ld: after %s isAborted()=%d isFinished()=%d (exactly one must hold)", id, how, (int)ab, (int)fin); }
     if (ab && !s.abortCalled) { snprintf(key, sizeof key, "Future.%s/aborted-without-abort", how); fail(key, "job %ld: isAborted() although abort() was not requested since the start", id); }
   }
@@ -138,20 +152,21 @@ static void verifyCompleted(FSlot& s, const char* how, bool objectAlive) {
 
 static void complete(Client& c, FSlot& s, Rng& r) {
   if (!s.outstanding) return;
-  int how = (int)r.below(s.isInt ? 3 : 2);
-  if (how == 0) { if (s.isInt) s.fi->join(); else s.fv->join(); ++c.joins; verifyCompleted(s, "join", true); }
+  int how = (int)r.below(s.isInt || s.isRes ? 3 : 2);
+  if (how == 0) { if (s.isRes) s.fr->join(); else if (s.isInt) s.fi->join(); else s.fv->join(); ++c.joins; verifyCompleted(s, "join", true); }
   else if (how == 1) { // destructor
-    if (s.isInt) { delete s.fi; s.fi = 0; } else { delete s.fv; s.fv = 0; }
+    if (s.isRes) { delete s.fr; s.fr = 0; } else if (s.isInt) { delete s.fi; s.fi = 0; } else { delete s.fv; s.fv = 0; }
     ++c.dtors; verifyCompleted(s, "destructor", false);
-    if (s.isInt) s.fi = new Future<int>; else s.fv = new Future<void>;
-  } else { const int& v = *s.fi; int got = v; ++c.convs; verifyCompleted(s, "result-conversion", true); if (got != resultOf(s.id)) fail("Future.result-conversion/value", "job %ld: converted result %d, function returned %d", s.id, got, resultOf(s.id)); }
+    if (s.isRes) s.fr = new Future<TRes>; else if (s.isInt) s.fi = new Future<int>; else s.fv = new Future<void>;
+  } else if (s.isRes) { const TRes& v = *s.fr; long got = v.v; ++c.convs; verifyCompleted(s, "result-conversion", true); if (v.magic != 0x11FE || got != resultOf(s.id)) fail("Future.result-conversion/value", "job %ld: converted result %ld, function returned %d", s.id, got, resultOf(s.id)); }
+  else { const int& v = *s.fi; int got = v; ++c.convs; verifyCompleted(s, "result-conversion", true); if (got != resultOf(s.id)) fail("Future.result-conversion/value", "job %ld: converted result %d, function returned %d", s.id, got, resultOf(s.id)); }
   s.zslot = -1;
 }
 
 static void* clientMain(void* p) {
   Client& c = *(Client*)p; Rng r(c.seed, 4242, (u64)c.idx);
   Vec<FSlot> slots; bool zeroBusy = false;
-  for (int i = 0; i < c.nfut; ++i) { FSlot s; memset(&s, 0, sizeof s); s.isInt = r.chance(2, 3); if (s.isInt) s.fi = new Future<int>; else s.fv = new Future<void>; s.zslot = -1; slots.push(s); }
+  for (int i = 0; i < c.nfut; ++i) { FSlot s; memset(&s, 0, sizeof s); { int ty = (int)r.below(6); s.isInt = ty < 3; s.isRes = ty == 3; } if (s.isRes) s.fr = new Future<TRes>; else if (s.isInt) s.fi = new Future<int>; else s.fv = new Future<void>; s.zslot = -1; slots.push(s); }
   for (int round = 0; round < c.rounds; ++round) {
     FSlot& s = slots[r.below(slots.n)];
     // a pending member call reads s.obj and a pending 0-argument call reads the client's slot when it runs: complete those before reuse.
@@ -166,7 +181,9 @@ static void* clientMain(void* p) {
     s.zslot = -1;
     if (sig >= 6) { s.obj.id = id; s.obj.kind = kind; s.zslot = -2; }
     if (sig == 0) { g_zslot[c.idx].id = id; g_zslot[c.idx].kind = kind; s.zslot = c.idx; zeroBusy = true; }
-    if (s.isInt) { Future<int>& f = *s.fi;
+    if (s.isRes) { Future<TRes>& f = *s.fr; if (sig == 0) { zeroBusy = false; s.zslot = -1; }   // no 0-argument variant for this result type
+      if (sig >= 6) f.start(s.obj, &Obj::mr1, a); else if (sig & 1) f.start(&fr3, id, kind, a); else f.start(&fr2, id, kind);
+    } else if (s.isInt) { Future<int>& f = *s.fi;
       switch (sig) {
       case 0: f.start(g_zi[c.idx]); break;
       case 1: f.start(&fi1, id); break; case 2: f.start(&fi2, id, kind); break; case 3: f.start(&fi3, id, kind, a); break; case 4: f.start(&fi4, id, kind, a, b); break; case 5: f.start(&fi5, id, kind, a, b, kStr); break;
@@ -187,12 +204,12 @@ static void* clientMain(void* p) {
       if (__atomic_load_n(&g_argbad[prevId], RLX)) fail("Future.start/arguments", "job %ld received arguments different from the ones given to start()", prevId);
     }
     s.id = id; s.outstanding = true; s.abortCalled = false;
-    if (r.chance((u32)c.abortPermille, 1000)) { if (s.isInt) s.fi->abort(); else s.fv->abort(); s.abortCalled = true; ++c.aborts; }
+    if (r.chance((u32)c.abortPermille, 1000)) { if (s.isRes) s.fr->abort(); else if (s.isInt) s.fi->abort(); else s.fv->abort(); s.abortCalled = true; ++c.aborts; }
     if (r.chance(1, 3)) { FSlot& o = slots[r.below(slots.n)]; bool z = o.zslot >= 0; if (o.outstanding) { complete(c, o, r); if (z) zeroBusy = false; } }
-    if (r.chance(1, 8)) { FSlot& o = slots[r.below(slots.n)]; if (!o.outstanding) { if (o.isInt) o.fi->abort(); else o.fv->abort(); ++c.idleAborts; } }   // abort() on an idle Future: must not carry over to the next start
+    if (r.chance(1, 8)) { FSlot& o = slots[r.below(slots.n)]; if (!o.outstanding) { if (o.isRes) o.fr->abort(); else if (o.isInt) o.fi->abort(); else o.fv->abort(); ++c.idleAborts; } }   // abort() on an idle Future: must not carry over to the next start
   }
   for (size_t i = 0; i < slots.n; ++i) { bool z = slots[i].zslot >= 0; complete(c, slots[i], r); if (z) zeroBusy = false; }
-  for (size_t i = 0; i < slots.n; ++i) { delete slots[i].fi; delete slots[i].fv; }
+  for (size_t i = 0; i < slots.n; ++i) { delete slots[i].fi; delete slots[i].fv; delete slots[i].fr; }
   return 0;
 }
 
